@@ -86,9 +86,16 @@ Scatter(data, lens) ==
 \* file, follows a parent that is a symbolic link (not modelled), and says ENOENT otherwise
 \* (a link whose target is its own name can never be resolved: ELOOP)
 SelfLoop(s, q) == Exists(s, q) /\ s.fs[q].kind = "link" /\ s.fs[q].target = q
-Missing(s, pp) == IF Exists(s, pp) /\ s.fs[pp].kind = "file" THEN ENOTDIR
-                  ELSE IF SelfLoop(s, pp) THEN ELOOP
-                  ELSE IF Exists(s, pp) /\ s.fs[pp].kind = "link" THEN EUNSPEC ELSE ENOENT
+\* k lies below directory p (paths are strings: p, then a slash, then more)
+Below(k, p) == Len(k) > Len(p) + 1 /\ SubSeq(k, 1, Len(p) + 1) = p \o "/"
+\* (the same holds when it is a directory further up the path that is a file or a link: the first thing on the way that is not a
+\* directory decides - there is at most one, since nothing lies below a file or a link)
+Missing(s, pp) == LET nd == {k \in DOMAIN s.fs : (k = pp \/ Below(pp, k)) /\ s.fs[k].kind # "dir"} IN
+                  IF nd = {} THEN ENOENT
+                  ELSE LET k == CHOOSE x \in nd : TRUE IN
+                       IF s.fs[k].kind = "file" THEN ENOTDIR
+                       ELSE IF k = pp /\ SelfLoop(s, pp) THEN ELOOP
+                       ELSE EUNSPEC
 (* Path resolution as the host does it (POSIX 4.13), for guest paths with "." and ".." components and symbolic links to
    directories on the way: walk mode (c.walk).  The binder splits the guest path into the components that lead to the
    directory of the last name (c.wcomps) and that name (c.wlast, "" when the whole path denotes a directory - it ends in
@@ -264,6 +271,12 @@ FdSync(s, c) ==
 (* path operations (C14): resolve against the descriptor's path, then exactly one host operation *)
 \* direct or indirect children of directory p.  Paths are strings: "is below p" is decided on the path lists the
 \* scenario supplies (c.under = the paths of the tree that lie below the path the call names)
+\* the tree after directory p (with all that lies below it) has become q; an (empty) directory that was at q is replaced
+MoveTree(fs, p, q) ==
+    LET moved == {k \in DOMAIN fs : k = p \/ Below(k, p)}
+        NewName(k) == IF k = p THEN q ELSE q \o SubSeq(k, Len(p) + 1, Len(k))
+    IN  [k \in ((DOMAIN fs \ moved) \ {q}) \cup {NewName(m) : m \in moved} |->
+            IF \E m \in moved : NewName(m) = k THEN fs[CHOOSE m \in moved : NewName(m) = k] ELSE fs[k]]
 ParentOf(c) == c.parent                       \* the resolved parent directory, "" for the sandbox root (supplied with the call)
 HasChildren(s, p, under) == \E q \in DOMAIN s.fs : q \in under
 PathOp(s, c) ==
@@ -324,7 +337,7 @@ PathOp(s, c) ==
           [] c.call = "rmdir" ->
                IF ~Exists(s, p) THEN Res(s, Missing(s, pp), NoOut)
                ELSE IF s.fs[p].kind # "dir" THEN Res(s, ENOTDIR, NoOut)
-               ELSE IF \E q \in DOMAIN s.fs : q \in under THEN Res(s, ENOTEMPTY, NoOut)
+               ELSE IF \E q \in DOMAIN s.fs : q \in under \/ Below(q, p) THEN Res(s, ENOTEMPTY, NoOut)
                ELSE Res([s EXCEPT !.fs = DelF(@, p)], ESUCCESS, NoOut)
           [] c.call = "unlink" ->
                IF ~Exists(s, p) THEN Res(s, Missing(s, pp), NoOut)
@@ -347,10 +360,22 @@ PathOp(s, c) ==
           [] c.call = "rename" ->
                LET d2 == FdOf(s, c.fd)  q == Join(d2.path, c.path2) IN
                IF d2.kind = "file" THEN Res(s, EUNSPEC, NoOut)
-               ELSE IF ~Exists(s, p) THEN Res(s, Missing(s, pp), NoOut)
-               ELSE IF s.fs[p].kind = "dir" \/ (Exists(s, q) /\ s.fs[q].kind = "dir") THEN Res(s, EUNSPEC, NoOut)   \* directory renames: not modelled
+               \* (the host looks up both parent directories before it looks at either entry)
+               ELSE IF ~parentOK THEN Res(s, Missing(s, pp), NoOut)
                ELSE IF ~IsDir(s, Join(d2.path, c.parent2)) THEN Res(s, Missing(s, Join(d2.path, c.parent2)), NoOut)
+               ELSE IF ~Exists(s, p) THEN Res(s, ENOENT, NoOut)
                ELSE IF p = q THEN Res(s, ESUCCESS, NoOut)
+               \* a directory moves with everything below it; it cannot move into itself, replaces only an empty directory,
+               \* and never a file or a link.  Descriptors are not touched: a directory descriptor keeps the PATH it was
+               \* opened under (C14: "resolves a relative guest path against the path of its directory descriptor"), which
+               \* afterwards names nothing - or whatever is created there next
+               ELSE IF s.fs[p].kind = "dir" THEN
+                    (IF Below(q, p) THEN Res(s, EINVAL, NoOut)
+                     ELSE IF Exists(s, q) /\ s.fs[q].kind # "dir" THEN Res(s, ENOTDIR, NoOut)
+                     ELSE IF Exists(s, q) /\ (\E k \in DOMAIN s.fs : Below(k, q)) THEN Res(s, ENOTEMPTY, NoOut)
+                     ELSE Res([s EXCEPT !.fs = MoveTree(@, p, q)], ESUCCESS, NoOut))
+               \* (a file onto a directory it lies in: "is a directory" and "not empty" both apply, the host picks)
+               ELSE IF Exists(s, q) /\ s.fs[q].kind = "dir" THEN Res(s, IF Below(p, q) THEN EUNSPEC ELSE EISDIR, NoOut)
                ELSE Res([s EXCEPT !.fs = SetF(DelF(@, p), q, s.fs[p])], ESUCCESS, NoOut)
 
 Call(s, c) ==
